@@ -142,6 +142,8 @@ void lifetime() {
   auto* p = new trompeloeil::deathwatched<Plain>();
   REQUIRE_DESTRUCTION(*p);
   trompeloeil::deathwatched<Plain> copy(*p);
+  const trompeloeil::deathwatched<Plain>& cref = *p;
+  trompeloeil::deathwatched<Plain> ccopy(cref);
   trompeloeil::deathwatched<Plain> moved(std::move(*p));
   copy = moved;
   copy = std::move(moved);
